@@ -10,7 +10,8 @@
    agree with [run_go p]. *)
 From Coq Require Import ZArith List String Bool.
 From Verif Require Import Model.C01_GoSem Model.C01_JsSem Model.C01_Compile Model.C01_Wf
-  Proofs.C01_Arith Proofs.C01_SimBase Proofs.C01_SimExpr Proofs.C01_SimBin Proofs.C01_SimStmt4 Proofs.C01_Examples.
+  Proofs.C01_Arith Proofs.C01_SimBase Proofs.C01_SimExpr Proofs.C01_SimBin Proofs.C01_SimStmt4 Proofs.C01_Examples
+  Model.C01_S2_GoSem Model.C01_S2_JsSem Model.C01_S2_Compile Model.C01_S2_Wf Proofs.C01_S2_Sim Proofs.C01_S2_Examples.
 Import ListNotations.
 Local Open Scope Z_scope.
 
@@ -84,3 +85,41 @@ Example C01_formerly_deviating :
   run_js 5 (compile p_shift_skip) = Done [] PanicExit /\ run_go 5 p_shift_skip = Done [] PanicExit /\
   wf_prog p_quo_minint = true /\ wf_prog p_neg_minint = true /\ wf_prog p_shr_const = true /\ wf_prog p_shift_skip = true.
 Proof. exact formerly_deviating. Qed.
+
+(* ------------------------------------------------------------------------------------------
+   STAGE 2 (phase 4), PROVED: programs of several top-level functions.  Models: Model/C01_S2_GoSem.v
+   (functions with int8..uint / bool parameters and zero or one result; calls as statements and as
+   the right-hand side of `v = f(..)` / `v := f(..)`, arguments / conditions / returned values are
+   stage-1 expressions; if/else and for loops around calls; `return` also from inside those loops
+   and ifs; call-free statements are arbitrary stage-1 statements; recursion bounded by the fuel),
+   Model/C01_S2_JsSem.v (MiniJS with functions: fresh store per call, parameters bound left to
+   right, `return`), Model/C01_S2_Compile.v (mirror of the translator: per-function name allocator
+   with the parameters as the first names and listed in the var line, `f(args)` non-blocking call
+   form, right-hand side translated before the defined variable is named, loop shape), Model/C01_S2_Wf.v.
+   Every well-formed stage-2 program whose Go run ends (normal exit or the division panic, possibly
+   inside a callee after some output) within the fuel is simulated by its translation: same printed
+   lines, same ending, SAME fuel (one unit per call and per loop iteration on both sides).
+   _partial w.r.t. the property text: calls nested inside operator expressions (`f(x) + g(y)`),
+   calls as arguments of calls, package-level variables, break/continue across a loop that contains
+   a call, composite types and everything listed in C01_full_statement beyond the fragment are not
+   covered (compared against native Go on generated programs by the harness instead). *)
+Theorem compile_correct_stage2_partial : forall p, wf_prog2 p = true ->
+  forall fuel out e, run_go2 fuel p = Done out e -> run_js2 fuel (compile2 p) = Done out e.
+Proof. exact compile_correct_stage2_all. Qed.
+Print Assumptions compile_correct_stage2_partial.
+
+(* statement level, for any function environment all of whose functions are well-formed: the
+   translation of a statement (at ANY allocator state) simulates it, including `return` values *)
+Theorem compile_stmt2_correct : forall fe, (forall f fd, find_fn fe f = Some fd -> wf_fn fe fd = true) ->
+  forall fuel s, Dyn2 fe fuel s.
+Proof. exact dyn2_all. Qed.
+Print Assumptions compile_stmt2_correct.
+
+(* Non-vacuity: recursion (h), a `return` from inside a for loop inside a function called from
+   main (find), a result-less function with an early `return` (show), a bool parameter, and a
+   division by zero three calls deep after two printed lines *)
+Example C01_stage2_nonvacuous :
+  wf_prog2 ex2_prog = true /\
+  run_go2 60 ex2_prog = Done [[VI 3]; [VI 3; VB false]] PanicExit /\
+  run_js2 60 (compile2 ex2_prog) = Done [[VI 3]; [VI 3; VB false]] PanicExit.
+Proof. exact ex2_prog_simulated. Qed.
